@@ -157,8 +157,6 @@ FILLERS = ["", " ", "  ", "\n", "\t", " /* c */ ", "/**/", " # c\n", "\r\n", " /
 
 # besides plain names, names that begin with a word of the language (`if`, `then`, `else`, `let`, `in`, `and`, `or`, `xor`):
 # they are ordinary identifiers wherever an operand is expected
-# the class of the known finding C09-if-prefixed-condition: the condition of an `if` starts with a name that starts with "if"
-IF_PREFIXED_COND = re.compile(rb"(?<![A-Za-z0-9_])if(?:\s|/\*.*?\*/|#[^\n]*\n)*if[A-Za-z0-9_]", re.S)
 IDS = ["a", "b", "c", "d", "e", "x1", "_y", "foo", "ifname", "iface", "if_", "thenx", "elsewhere", "letter", "inner", "in_", "android", "orb", "xorz"]
 
 
@@ -367,8 +365,7 @@ def run(tier, seed, replay=None):
             nt += 1
             if oi != "OK " + meta["want"]:
                 rep.fail("C09 oracle: %s spelling %r parses to %s, the documented table gives %s" % (meta["form"], src.decode("utf-8", "replace")[:100], oi[:160], meta["want"][:160]),
-                         {"kind": "failing-input", "cases": [dict(kind=kind, line=line, meta=meta)], "source": src.decode("utf-8", "replace"), "observed": oi, "expected": "OK " + meta["want"]},
-                         ["C09-if-prefixed-condition"] if IF_PREFIXED_COND.search(src) and oi.startswith("ERR") else ())
+                         {"kind": "failing-input", "cases": [dict(kind=kind, line=line, meta=meta)], "source": src.decode("utf-8", "replace"), "observed": oi, "expected": "OK " + meta["want"]})
     # the printer of the round-trip theorem against the real parser: m_print t must parse to m_denote t
     counts, nun = ladder_shape()
     n_rt, rt_sizes = 0, collections.Counter()
